@@ -33,13 +33,13 @@ CHECKS = {
              text='bounded symbolic verification (partial): every axis dataset, unit attribute and impedance dataset carries the term of the quantity the statement names for all values; each append extends exactly the expected datasets by one record at offset = record count with the named source array, bunch b in row b (1-3 bunches, first and second record); record/time-axis bookkeeping over all paths of <= K loop iterations of main',
              ref='4/C10'),
  'C12': dict(technique='symbolic execution with write logging of every observer call (PhaseSpace observers, updateCSR, HDF5File appends, applyTo, getPastModulation) from LLVM IR, plus under-constrained path exploration of main()\'s loop from its real IR with all cadences symbolic; z3 decides the schedule arithmetic',
-             text='bounded symbolic verification (first sentence of the statement): every observer call writes only observer state for all symbolic contents; integrate is idempotent; over all paths of <= 2 (3) loop iterations the state-changing events of an iteration are the canonical step with fixed receivers, renormalisation depends on the step number only, output on k % outstep; bit-identity of separate processes is not claimed',
+             text='bounded symbolic verification (first sentence of the statement): every observer call leaves every byte outside observer state as it was, for all symbolic contents; integrate is idempotent; the same steps of the dynamic RF map with and without interleaved record fetches leave grid, field and pending modulation identical; over all paths of <= 2 (3) loop iterations the state-changing events of an iteration are the canonical step with fixed receivers, renormalisation depends on the step number only, output on k % outstep; bit-identity of separate processes is not claimed',
              ref='4/C12'),
- 'C13': dict(technique='symbolic execution of ProgramOptions::save from LLVM IR on snapshots taken after a native parse of five scenarios, with one symbol per effective option value, the output stream as a recorder, boost variables_map lookup over the snapshot\'s red-black tree and C++ exception unwinding; z3 decides term identity of every saved value',
-             text='bounded symbolic verification of the writer half: in every scenario (defaults, all options on the command line with three bunch currents, canonical and legacy keys in a parent config, alpha0 vs synchrotron frequency) the saved file has exactly one line per option with a getter whose value term is the bound variable, written with >= 9/17 digits, one line per bunch current, no legacy keys; the reader (boost) is trusted',
+ 'C13': dict(technique='symbolic execution of ProgramOptions::save from LLVM IR on snapshots taken after a native parse of seven scenarios, with one symbol per effective option value, the output stream as a recorder, boost variables_map lookup over the snapshot\'s red-black tree and C++ exception unwinding; z3 decides term identity of every saved value',
+             text='bounded symbolic verification of the writer half: in every scenario (defaults, all options on the command line with three bunch currents, canonical and legacy keys in a parent config, both names of a quantity with different values, alpha0 vs synchrotron frequency) the saved file has exactly one line per option with a getter whose value term is the bound variable, written with >= 9/17 digits, one line per bunch current, no legacy keys; the reader (boost) is trusted',
              ref='4/C13, 9.6'),
- 'C14': dict(technique='under-constrained symbolic execution of main()\'s loop and epilogue from its real LLVM IR (compiled -fno-inline) with every volatile read of the interrupt flag a fresh monotone boolean; event traces checked against the step grammar, z3 for path conditions',
-             text='bounded symbolic verification: the handler only sets the flag; on every path of <= 2 (3) iterations an interrupt seen at any loop test lets the step in progress finish, runs no further step, appends exactly one final record of type All labelled with the step reached, prints Aborted. and returns 0; any other place where main reads the flag is explored with the flag set and must lead to the same ending',
+ 'C14': dict(technique='under-constrained symbolic execution of main()\'s loop and epilogue from its real LLVM IR (compiled -fno-inline) with every volatile read of the interrupt flag a fresh monotone boolean; event traces checked against the step grammar; every store of the program to the flag explored back through its dominators; z3 for path conditions',
+             text='bounded symbolic verification: the handler only sets the flag; every other store to the flag writes true on every path; on every path of <= 2 (3) iterations an interrupt seen at any loop test lets the step in progress finish, runs no further step, appends exactly one final record of type All labelled with the step reached, prints Aborted. and returns 0; any other place where main reads the flag is explored with the flag set and must lead to the same ending',
              ref='4/C14'),
  'C15': dict(technique='symbolic execution of every applyTo (kick, drift, 4 Fokker-Planck tracking models) with symbolic position, displacement field and noise draw; z3 decides containment and particle==blob-centroid',
              text='bounded symbolic verification: for every real start position on the grid, every (unbounded) displacement field and noise draw the tracked coordinate stays in [0,n-1]^2; a particle on a grid point or half-way between rows moves exactly like the centroid of a unit blob transported by apply() (it>=2); the stochastic model damps towards the zero-energy bin with N(0,sqrt(2e1)/delta) noise',
@@ -50,8 +50,8 @@ CHECKS = {
  'C16': dict(technique='symbolic execution of the closed-form impedance models, Impedance::operator+= and makeImpedance from LLVM IR with symbolic physical parameters (pow/sqrt/log uninterpreted with sign axioms); z3 decides shape, passivity, formulas and the factory sum',
              text='bounded symbolic verification (partial): every closed-form model returns n samples, exact zeros in the negative-frequency half, non-negative real part; free space == (306.3+176.9i)*pow(i*d,1/3), resistive wall == Z1*sqrt(i*d)*(1-i), collimator == Z0/pi*log(outer/inner) real positive; the factory equals the cell-wise sum of the selected contributions for all 24 switch combinations (parallel-plates model stubbed), nullptr iff none; parallel-plates limits and causality are NOT decided',
              ref='4/C16'),
- 'C17': dict(technique='allocation-table bounds checking inside the symbolic executor on symbolic runs of the kick kernels, Impedance::operator+=, appendTracks, plus under-constrained symbolic runs of the real file loaders (makePSFromTXT, Impedance::readData, HDF5File::readPhaseSpace) with iostream/HDF5 calls as nondeterministic stubs and uninitialised-stack tracking; z3 decides index ranges',
-             text='bounded symbolic verification for the listed units (not the whole program): displacements anywhere in [-2n,2n] and particles anywhere on the grid never index outside tables/grids; impedance tables shorter or longer than the grid are added in bounds; text loaders index the grid only inside [0,n) for arbitrary file contents and never read an unwritten local on any extraction-failure pattern; the HDF5 start file reader never divides by an empty extent; track output indexes inside the axes',
+ 'C17': dict(technique='allocation-table bounds checking inside the symbolic executor on symbolic runs of the kick kernels, Impedance::operator+=, appendTracks, plus under-constrained symbolic runs of the real file loaders (makePSFromTXT, Impedance::readData, HDF5File::readPhaseSpace) with iostream/HDF5 calls as nondeterministic stubs and uninitialised-stack tracking; under-constrained symbolic execution of the slice of main() from the filling pattern to the ElectricField constructions with rounding as integer-theory constraints; z3 decides index ranges and the length inequalities',
+             text='bounded symbolic verification for the listed units (not the whole program): displacements anywhere in [-2n,2n] and particles anywhere on the grid never index outside tables/grids; impedance tables shorter or longer than the grid are added in bounds; text loaders index the grid only inside [0,n) for arbitrary file contents and never read an unwritten local on any extraction-failure pattern; the HDF5 start file reader never divides by an empty extent; track output indexes inside the axes; for every bunch spacing >= grid width, padding, rounding option and filling pattern (grids 4-8, up to 5 bucket slots; thorough to 33 / 7) the padded lengths main computes cover bucket*spacing+grid; on every start-distribution route the grid width equals GridSize when fields and maps are built; tracking-file coordinates of any float value are mapped into the grid (IEEE theory)',
              ref='4/C17'),
  'C18': dict(technique='symbolic execution of every call history (wakePotential, padBunchProfiles, updateCSR; length <= 2/3, independent symbolic profiles) from LLVM IR with the FFT as an uninterpreted function of its entire input buffer; term identity with a fresh object decided by z3',
              text='bounded symbolic verification: after every history of up to 2 (quick) / 3 (thorough) calls with arbitrary earlier profiles, each of the three queries returns terms identical to those of the untouched snapshot object, for power-of-two, composite and prime transform lengths and bunch patterns with empty buckets; FFT stub assumptions calibrated natively per configuration',
